@@ -160,7 +160,7 @@ E4_ASSUME = ["exhaustive within the stated finite family of inputs; inputs outsi
 CHECKS["C07"] = dict(
     level="exploration",
     engine="enumx",
-    rule="every routing tree of the bounded shape family (root + <=2 children + <=2 grandchildren per child; per node one of 8 matcher forms incl. legacy match/match_re, continue on/off) x all 9 label sets over a,b in {absent,1,2}; plus the 3-level inheritance family (receiver x 5 group_by forms x intervals x labels x time intervals per node). Each tree goes YAML -> config.Load -> dispatch.NewRoute -> Route.Match. distinct = distinct (selected nodes, label set, tree size) outcomes",
+    rule="every routing tree of the bounded shape family (root + <=3 children + <=2 grandchildren under the first two children; per node one of 8 matcher forms incl. legacy match/match_re, continue on/off) x all 9 label sets over a,b in {absent,1,2}; plus the 3-level inheritance family (receiver x 5 group_by forms x intervals x labels x time intervals per node). Each tree goes YAML -> config.Load -> dispatch.NewRoute -> Route.Match. distinct = distinct (selected nodes, label set, tree size) outcomes",
     technique="bounded-exhaustive enumeration of routing trees x label sets against a recursive reference (all trees up to a shape bound, not sampled)",
     level_text="The selected route list equals the depth-first / first-match-unless-continue / self-only-if-no-child rule for every tree and label set; inherited receiver, group_by (incl. [], '...', re-override), group_wait/interval/repeat and merged labels equal a field-by-field reference; mute/active time intervals are exactly the route's own; the result is never empty.",
     level_note="amtool's routing test and the API receivers field call the same Route.Match (agreement by construction; the API field is compared with hand-written expectations in C13/C06).",
